@@ -1,18 +1,60 @@
 /-
   C01 - Python encode emits exactly the documented wire format.
-  (theorems are added below as they are proved; the full statement stays visible)
 
-  FULL STATEMENT (target):
-    theorem C01_py_encode_canonical (t : Ty) (v : Val) (e : Endian) :
-      WF t → HasType t v → Py.encode t v e = .ok (Spec.enc t v e)
+  `C01_py_encode_canonical` is the full statement: for every schema tree that satisfies the
+  composability rules (`WF.wfTy`, implied by `Accept.front ∧ Accept.pyRt`, see C12), every value
+  of the type (`hasType`) whose arrays sharing a counter agree in length (`WF.agreeTy`; otherwise
+  the real encode raises "Size mismatch of arrays") and either byte order, the model of
+  `Message.encode()` returns the canonical encoding of docs/encoding.rst (`Spec.enc`): field
+  order, sizes, the positions of the padding, zero padding bytes, counters equal to the element
+  counts (plus the declared shift), optional flags and union discriminators as 32-bit integers.
+  The proof (Lemmas/PyEncode.lean) is by mutual structural induction on the value; its layout
+  core is that the runtime's "pad before each field to its alignment, and after a dynamic field to
+  the partial alignment" reaches the same offsets as the document's "first field of a block has
+  the greatest alignment of the block".
 -/
 import ProphyModel.Properties.Tables
 import ProphyModel.Properties.DocExamples
 import ProphyModel.Lemmas.Statics
+import ProphyModel.Lemmas.PyEncode
 namespace Prophy.C01
 open Prophy
 
 /-- `_ALIGNMENT` of every generated class is the alignment the document assigns -/
 theorem C01_py_alignment (t : Ty) : (Py.stTy t).align = Spec.alignTy t := Py.stTy_align t
+
+/-- FULL STATEMENT: encode is canonical, for every well-formed schema, every well-typed coherent
+    value and both byte orders -/
+theorem C01_py_encode_canonical (t : Ty) (v : Val) (e : Endian)
+    (hw : WF.wfTy t = true) (hv : hasType t v = true) (ha : WF.agreeTy t v = true) :
+    Py.encode t v e = .ok (Spec.enc t v e) :=
+  Py.encode_canonical t v e hw hv ha
+
+/-- the length of what encode returns is the sum of the documented chunk lengths -/
+theorem C01_py_encode_length (t : Ty) (v : Val) (e : Endian) (b : Bytes)
+    (hw : WF.wfTy t = true) (hv : hasType t v = true) (ha : WF.agreeTy t v = true)
+    (h : Py.encode t v e = .ok b) : b.length = Spec.clen (Spec.chunksTy t v) := by
+  rw [C01_py_encode_canonical t v e hw hv ha] at h
+  injection h with h
+  rw [← h]; simp [Spec.enc]
+
+/-- the runtime's `_DYNAMIC` flag is the document's stiffness on well-formed schemas -/
+theorem C01_py_dynamic (t : Ty) (hw : WF.wfTy t = true) : (Py.stTy t).dyn = Spec.dynTy t := Py.stTy_dyn t hw
+
+/-! the hypotheses are satisfiable by a non-trivial type and value: a struct with a shared,
+    narrow, shifted counter, a nested dynamic struct followed by less and more aligned fields, an
+    optional, a limited array and a union -/
+def exInner : Ty := .struct "Dy" [.mk "num_of_a" (.prim .u32) .plain, .mk "a" (.prim .u8) (.dyn "num_of_a" 0)]
+def exUnion : Ty := .union "U" [.mk "a" 1 (.prim .u8), .mk "b" 5 (.prim .u64)]
+def exT : Ty := .struct "X"
+  [ .mk "n" (.prim .u8) .plain, .mk "x" (.prim .u16) (.dyn "n" 2), .mk "y" (.prim .u8) (.dyn "n" 2),
+    .mk "d" exInner .plain, .mk "t" (.prim .u8) .plain, .mk "w" (.prim .u64) .plain,
+    .mk "o" (.prim .u16) .optional, .mk "num_of_l" (.prim .u32) .plain, .mk "l" (.prim .u16) (.limited "num_of_l" 3),
+    .mk "u" exUnion .plain ]
+def exV : Val := .struct
+  [ .sizer, .arr [.int 1, .int 2], .arr [.int 3, .int 4], .struct [.sizer, .arr [.int 9, .int 8, .int 7]], .int 5, .int 6,
+    .present (.int 7), .sizer, .arr [.int 1], .union 1 (.int 77) ]
+
+example : WF.wfTy exT = true ∧ hasType exT exV = true ∧ WF.agreeTy exT exV = true := by decide
 
 end Prophy.C01
